@@ -7,9 +7,11 @@ import (
 	"fmt"
 	"net/http"
 	"net/http/httptest"
+	"net/url"
 	"os"
 	"os/exec"
 	"path/filepath"
+	"strings"
 	"sync/atomic"
 	"time"
 
@@ -57,7 +59,11 @@ func parentSetup(tier string, seed int64, work string) ([]string, error) {
 	if err != nil {
 		return nil, err
 	}
-	return []string{"VERIF_CLI=" + p}, nil
+	sh, err := harness.BuildHelper(work, "shim", "./helpers/shim", "verif")
+	if err != nil {
+		return nil, err
+	}
+	return []string{"VERIF_CLI=" + p, "VERIF_SHIM=" + sh}, nil
 }
 
 type scenario struct {
@@ -74,7 +80,7 @@ type scenario struct {
 func makeScenario(seed int64, s int, tier string) scenario {
 	rng := harness.CaseRng(seed^0x5eed, s)
 	var sc scenario
-	sc.op = []string{"chop", "chop", "copy", "chunkstream", "chop-stale", "cli", "s3"}[rng.Intn(7)]
+	sc.op = []string{"chop", "chop", "copy", "chunkstream", "chop-stale", "cli", "s3", "sftp"}[rng.Intn(8)]
 	sc.sz = dsu.SmallSizes[rng.Intn(3)]
 	sc.n = []int{1, 2, 4, 16}[rng.Intn(4)]
 	sc.dup = rng.Intn(2) == 0
@@ -117,6 +123,10 @@ func run(c *harness.Ctx, i int) {
 	}
 	if sc.op == "s3" {
 		runS3(c, sc, s, slot)
+		return
+	}
+	if sc.op == "sftp" {
+		runSFTP(c, sc, s, slot)
 		return
 	}
 	// fault plan of the slot
@@ -298,6 +308,86 @@ func run(c *harness.Ctx, i int) {
 	}
 	c.Sample(map[string]interface{}{"op": sc.op, "chunks": len(sc.idx.Chunks), "n": sc.n, "dup": sc.dup, "fault": fmt.Sprintf("%s@%d", fop, fk), "delivered": nd, "result_error": fmt.Sprint(err),
 		"store_calls": map[string]int64{"has": dst.CountOf("has"), "store": dst.CountOf("store"), "get": src.CountOf("get")}})
+}
+
+// runSFTP: chop / copy into an sftp:// target whose server (the shim) fails the k-th close of a written file after
+// losing half of its data, or the k-th write request. Slot 0 is fault free.
+func runSFTP(c *harness.Ctx, sc scenario, s, slot int) {
+	if slot >= 24 {
+		c.Info("scenario=%d op=sftp slot=%d skipped", s, slot)
+		return
+	}
+	fault := ""
+	if slot > 0 {
+		fault = fmt.Sprintf("%s@%d", []string{"close", "write"}[(slot-1)%2], (slot-1)/2+1)
+	}
+	what := []string{"chop", "copy"}[s%2]
+	uncompressed := s%4 >= 2
+	c.Info("scenario=%d op=sftp:%s chunks=%d n=%d fault=%s uncompressed=%v", s, what, len(sc.idx.Chunks), sc.n, fault, uncompressed)
+	c.LogInfo()
+	dir := c.CaseDir()
+	target := filepath.Join(dir, "target")
+	os.MkdirAll(target, 0755)
+	flog := filepath.Join(dir, "faults.log")
+	os.Setenv("CASYNC_SSH_PATH", os.Getenv("VERIF_SHIM"))
+	os.Setenv("SHIM_SFTP_FAULT", "none@0")
+	if fault != "" {
+		os.Setenv("SHIM_SFTP_FAULT", fault)
+	}
+	os.Setenv("SHIM_SFTP_FAULT_LOG", flog)
+	defer os.Unsetenv("SHIM_SFTP_FAULT")
+	u, _ := url.Parse("sftp://localhost" + target)
+	// one connection: one server process, so "the k-th close" is well defined
+	st, err := desync.NewSFTPStore(u, desync.StoreOptions{N: 1, Uncompressed: uncompressed})
+	if err != nil {
+		c.Inconclusive("sftp shim: %v", err)
+		return
+	}
+	switch what {
+	case "chop":
+		file := filepath.Join(dir, "blob")
+		dsu.WriteFile(file, sc.blob)
+		err = desync.ChopFile(context.Background(), file, sc.idx.Chunks, st, sc.n, &dsu.CountPB{})
+	case "copy":
+		src := dsu.NewMemStore("src")
+		var ids []desync.ChunkID
+		for _, ch := range sc.idx.Chunks {
+			src.PutRaw(ch.ID, sc.blob[ch.Start:ch.Start+ch.Size])
+			ids = append(ids, ch.ID)
+		}
+		err = desync.Copy(context.Background(), ids, src, st, sc.n, &dsu.CountPB{})
+	}
+	st.Close()
+	fl, _ := os.ReadFile(flog)
+	nd := int64(strings.Count(string(fl), "\n"))
+	c.Count("sftp_runs", 1)
+	c.Count("faults_delivered", nd)
+	if err != nil {
+		if nd == 0 {
+			c.Violation("failed-without-fault:sftp-"+what, "%s into a healthy SFTP store failed: %v", what, err)
+		}
+		return
+	}
+	if nd > 0 {
+		c.Violation("success-despite-fault:sftp-"+what, "the SFTP server failed a request (%s) yet %s reported success", strings.TrimSpace(string(fl)), what)
+		return
+	}
+	ls, _ := desync.NewLocalStore(target, desync.StoreOptions{Uncompressed: uncompressed})
+	for k, ch := range sc.idx.Chunks {
+		got, gerr := ls.GetChunk(ch.ID)
+		if gerr != nil {
+			c.Violation("missing-after-success:sftp-"+what, "%s into SFTP reported success but chunk %d (%x) cannot be read back from the target directory: %v", what, k, ch.ID[:4], gerr)
+			return
+		}
+		if b, _ := got.Data(); !bytes.Equal(b, sc.blob[ch.Start:ch.Start+ch.Size]) {
+			c.Violation("invalid-after-success:sftp-"+what, "chunk %d read back differs", k)
+			return
+		}
+	}
+	if slot == 0 || nd > 0 {
+		c.NonTrivial("sftp|%s|n%d|u%v|%s", what, sc.n, uncompressed, strings.SplitN(fault+"@", "@", 2)[0])
+	}
+	c.Sample(map[string]interface{}{"op": "sftp:" + what, "chunks": len(sc.idx.Chunks), "n": sc.n, "fault": fault, "delivered": nd})
 }
 
 func mix(x uint64) uint64 {
